@@ -20,8 +20,9 @@
  *                               "seam":0 in the header line and ignored)
  *   E                           end of the history
  *
- * Every (history, kind) is replayed in a forked child, so that an abort of the code under test (xbt_assert, the explicit
- * error of the BMF solver) is reported as a line {"e":"abort"} and does not stop the batch.
+ * The histories are replayed in a forked worker, so that an abort of the code under test (xbt_assert, the explicit
+ * error of the BMF solver) or a solver that does not terminate (alarm, LMM_DRIVER_CHILD_TIMEOUT seconds per (history,
+ * kind), default 10: sig 14) is reported as a line {"e":"abort"} and does not stop the batch (a new worker goes on).
  *
  * output lines:
  *   {"e":"hdr","scale":100000,"prec":<sg_precision_workamount * 1e9>,"seam":0|1}
@@ -43,10 +44,12 @@
 #include <cmath>
 #include <cstdio>
 #include <cstdlib>
+#include <csignal>
 #include <cstring>
 #include <fstream>
 #include <sstream>
 #include <string>
+#include <sys/prctl.h>
 #include <sys/wait.h>
 #include <unistd.h>
 #include <vector>
@@ -113,6 +116,21 @@ struct Replayer {
       _exit(3);
     }
     model->set_maxmin_system(sys);
+  }
+
+  /* frees every variable and the system (the model owns it) */
+  void cleanup()
+  {
+    for (auto*& v : vars)
+      if (v) {
+        sys->variable_free(v);
+        v = nullptr;
+      }
+    if (selective)
+      sys->get_modified_action_set()->clear();
+    delete model;
+    model = nullptr;
+    sys   = nullptr;
   }
 
   void state_json(std::ostringstream& o) const
@@ -291,6 +309,9 @@ int main(int argc, char** argv)
   if (kinds.empty())
     kinds = {"mmsel", "mmfull", "bmf", "fb"};
   auto hs = read_histories(argv[1]);
+  unsigned child_timeout = 10;
+  if (const char* e = getenv("LMM_DRIVER_CHILD_TIMEOUT"))
+    child_timeout = static_cast<unsigned>(atoi(e));
 #ifdef LMM_DRIVER_SEAM
   int seam = 1;
 #else
@@ -299,82 +320,100 @@ int main(int argc, char** argv)
   printf("{\"e\":\"hdr\",\"scale\":%ld,\"prec\":%ld,\"clamp\":%ld,\"seam\":%d}\n", SCALE,
          std::lround(sg_precision_workamount * 1e9), CLAMP, seam);
   fflush(stdout);
-  for (const History& h : hs) {
-    for (const std::string& k : kinds) {
-      int prog[2]; /* progress pipe: the child writes the index of the operation it is about to perform */
-      int errp[2]; /* stderr of the child (explicit error message of the BMF solver) */
-      if (pipe(prog) || pipe(errp)) {
-        perror("pipe");
-        return 3;
-      }
-      pid_t pid = fork();
-      if (pid < 0) {
-        perror("fork");
-        return 3;
-      }
-      if (pid == 0) {
-        close(prog[0]);
-        close(errp[0]);
-        dup2(errp[1], 2);
-        Replayer r(k);
-        for (size_t i = 0; i < h.ops.size(); i++) {
-          unsigned idx = static_cast<unsigned>(i + 1);
-          if (write(prog[1], &idx, sizeof idx) < 0)
-            _exit(4);
-          r.apply(h.id, i + 1, h.ops[i], k == "mmsel");
-        }
-        _exit(0);
-      }
-      close(prog[1]);
-      close(errp[1]);
-      unsigned last = 0;
-      unsigned idx;
-      std::string errtxt;
-      /* drain both pipes (the child's stderr is small: bounded read) */
-      fd_set fds;
-      bool p_open = true;
-      bool e_open = true;
-      while (p_open || e_open) {
-        FD_ZERO(&fds);
-        if (p_open)
-          FD_SET(prog[0], &fds);
-        if (e_open)
-          FD_SET(errp[0], &fds);
-        int mx = std::max(prog[0], errp[0]) + 1;
-        if (select(mx, &fds, nullptr, nullptr, nullptr) < 0)
-          break;
-        if (p_open && FD_ISSET(prog[0], &fds)) {
-          ssize_t n = read(prog[0], &idx, sizeof idx);
-          if (n == static_cast<ssize_t>(sizeof idx))
-            last = idx;
-          else
-            p_open = false;
-        }
-        if (e_open && FD_ISSET(errp[0], &fds)) {
-          char buf[4096];
-          ssize_t n = read(errp[0], buf, sizeof buf);
-          if (n > 0) {
-            if (errtxt.size() < 65536)
-              errtxt.append(buf, static_cast<size_t>(n));
-          } else
-            e_open = false;
-        }
-      }
+  /* One worker child replays (history, kind) pairs in order, from position `pos`; before every operation it tells the
+   * parent where it is.  When it dies (abort of the code under test, alarm), the parent reports the pair as aborted and
+   * starts a new worker after that pair. */
+  size_t npairs = hs.size() * kinds.size();
+  size_t pos    = 0;
+  while (pos < npairs) {
+    int prog[2]; /* progress pipe: (pair index, operation index) */
+    int errp[2]; /* stderr of the worker (explicit error message of the BMF solver, xbt_assert messages) */
+    if (pipe(prog) || pipe(errp)) {
+      perror("pipe");
+      return 3;
+    }
+    pid_t pid = fork();
+    if (pid < 0) {
+      perror("fork");
+      return 3;
+    }
+    if (pid == 0) {
+      prctl(PR_SET_PDEATHSIG, SIGKILL); /* never outlive the driver (a spinning solver would) */
       close(prog[0]);
       close(errp[0]);
-      int status = 0;
-      waitpid(pid, &status, 0);
-      if (not(WIFEXITED(status) && WEXITSTATUS(status) == 0)) {
-        int sig      = WIFSIGNALED(status) ? WTERMSIG(status) : -WEXITSTATUS(status);
-        int bmf_err  = errtxt.find("Unable to find a BMF allocation") != std::string::npos ? 1 : 0;
-        std::string msg;
-        for (char ch : errtxt.substr(0, 300))
-          msg += (ch == '"' || ch == '\\' || ch < 32) ? ' ' : ch;
-        printf("{\"e\":\"abort\",\"h\":%ld,\"k\":\"%s\",\"i\":%u,\"sig\":%d,\"bmf_error\":%d,\"msg\":\"%s\"}\n", h.id,
-               k.c_str(), last, sig, bmf_err, msg.c_str());
-        fflush(stdout);
+      dup2(errp[1], 2);
+      for (size_t p = pos; p < npairs; p++) {
+        const History& h     = hs[p / kinds.size()];
+        const std::string& k = kinds[p % kinds.size()];
+        alarm(child_timeout); /* a solver that does not terminate: the worker dies with SIGALRM (14) */
+        {
+          Replayer r(k);
+          for (size_t i = 0; i < h.ops.size(); i++) {
+            unsigned msg[2] = {static_cast<unsigned>(p), static_cast<unsigned>(i + 1)};
+            if (write(prog[1], msg, sizeof msg) < 0)
+              _exit(4);
+            r.apply(h.id, i + 1, h.ops[i], k == "mmsel");
+          }
+          r.cleanup();
+        }
+      }
+      _exit(0);
+    }
+    close(prog[1]);
+    close(errp[1]);
+    unsigned last_pair = static_cast<unsigned>(pos);
+    unsigned last_op   = 0;
+    std::string errtxt;
+    fd_set fds;
+    bool p_open = true;
+    bool e_open = true;
+    while (p_open || e_open) {
+      FD_ZERO(&fds);
+      if (p_open)
+        FD_SET(prog[0], &fds);
+      if (e_open)
+        FD_SET(errp[0], &fds);
+      int mx = std::max(prog[0], errp[0]) + 1;
+      if (select(mx, &fds, nullptr, nullptr, nullptr) < 0)
+        break;
+      if (p_open && FD_ISSET(prog[0], &fds)) {
+        unsigned msg[2];
+        ssize_t n = read(prog[0], msg, sizeof msg);
+        if (n == static_cast<ssize_t>(sizeof msg)) {
+          last_pair = msg[0];
+          last_op   = msg[1];
+        } else
+          p_open = false;
+      }
+      if (e_open && FD_ISSET(errp[0], &fds)) {
+        char buf[4096];
+        ssize_t n = read(errp[0], buf, sizeof buf);
+        if (n > 0) {
+          errtxt.append(buf, static_cast<size_t>(n)); /* warnings of earlier pairs + the message of the fatal one */
+          if (errtxt.size() > 131072)
+            errtxt.erase(0, 65536);
+        } else
+          e_open = false;
       }
     }
+    close(prog[0]);
+    close(errp[0]);
+    int status = 0;
+    waitpid(pid, &status, 0);
+    if (WIFEXITED(status) && WEXITSTATUS(status) == 0)
+      break;
+    int sig     = WIFSIGNALED(status) ? WTERMSIG(status) : -WEXITSTATUS(status);
+    int bmf_err = errtxt.find("Unable to find a BMF allocation") != std::string::npos ? 1 : 0;
+    std::string msg;
+    size_t from = errtxt.find("Unable to find a BMF");
+    if (from == std::string::npos)
+      from = errtxt.size() > 300 ? errtxt.size() - 300 : 0;
+    for (char ch : errtxt.substr(from, 300))
+      msg += (ch == '"' || ch == '\\' || ch < 32) ? ' ' : ch;
+    printf("{\"e\":\"abort\",\"h\":%ld,\"k\":\"%s\",\"i\":%u,\"sig\":%d,\"bmf_error\":%d,\"msg\":\"%s\"}\n",
+           hs[last_pair / kinds.size()].id, kinds[last_pair % kinds.size()].c_str(), last_op, sig, bmf_err, msg.c_str());
+    fflush(stdout);
+    pos = last_pair + 1;
   }
   return 0;
 }
